@@ -615,7 +615,10 @@ func boundaryReentryAfterInterruption(env *Env, rep *Report, key string, rounds 
 	b := p.Node("boundary", "B0")
 	b.Attrs = `attachedToRef="H" cancelActivity="true"`
 	b.Inner = `<bpmn:signalEventDefinition id="bd0" signalRef="s0"/>`
-	p.Node("task", "X0")
+	// the task on the exception flow declares a result and is answered with it (the exception flow's token stores
+	// variables like any other)
+	x0 := p.Node("task", "X0")
+	x0.Results = []string{"seen"}
 	p.Flow("B0", "X0", "")
 	p.Flow("X0", "M", "")
 	xmlText := p.XML(`<bpmn:signal id="s0" name="s0"/>`)
@@ -638,7 +641,7 @@ func boundaryReentryAfterInterruption(env *Env, rep *Report, key string, rounds 
 				break
 			}
 			in.Signal("s0")
-			if !in.Answer("X0", tmoStep) {
+			if !in.Answer("X0", tmoStep, bpmn.DoWithResults(map[string]any{"seen": act})) {
 				problem = fmt.Sprintf("activation %d: the interrupting event did not lead to the exception flow", act)
 			}
 		}
